@@ -1,6 +1,7 @@
 """Configuration of ./check C03 (see cfg/README)."""
 
-PROP = {'modules': ['SfntV.Props.C03'],
+PROP = {'drive': ['Header'],
+ 'modules': ['SfntV.Props.C03'],
  'required_theorems': ['C03_no_panic',
                        'C03_ok_iff',
                        'C03_wellformed',
